@@ -457,6 +457,9 @@ func (w *binaryWriter) Finish() error {
 		if w.err = w.emit(seq); w.err != nil {
 			return w.err
 		}
+
+		// Start buffering the next batch, which gets its own version marker and symbol table.
+		w.bufs.push(&datagram{})
 	}
 
 	return nil
